@@ -202,30 +202,48 @@ def drive(n, kind, hist, rng, concrete=None):
             return rng.choice(told)
         return None
 
+    class _Stop(Exception):
+        pass
+
     def do(op, observe=True):
         out = []
-        if op[0] == "ask":
-            ret = l.ask(op[1], tell_pending=op[2])
-            out = [int(p[0]) for p in ret[0]]
-            orc.on_ask(op[1], op[2], ret)
-        elif op[0] == "tell":
-            l.tell((op[1], seq[op[1]]), op[2])
-            orc.on_tell(op[1], op[2])
-        elif op[0] == "tell_pending":
-            l.tell_pending((op[1], seq[op[1]]))
-            orc.on_tell_pending(op[1])
-        else:
-            l.remove_unfinished()
-            orc.on_discard()
+        try:
+            if op[0] == "ask":
+                ret = l.ask(op[1], tell_pending=op[2])
+                out = [int(p[0]) for p in ret[0]]
+                orc.on_ask(op[1], op[2], ret)
+            elif op[0] == "tell":
+                l.tell((op[1], seq[op[1]]), op[2])
+                orc.on_tell(op[1], op[2])
+            elif op[0] == "tell_pending":
+                l.tell_pending((op[1], seq[op[1]]))
+                orc.on_tell_pending(op[1])
+            else:
+                l.remove_unfinished()
+                orc.on_discard()
+        except Exception as e:      # the learner failed on a legal operation: a failing input, not a driver error
+            orc.err("internal_error", f"{op} raised {type(e).__name__}: {e}")
+            steps.append((op, [], None))
+            raise _Stop()
         o = obs_of(l) if observe else None
         if o is not None:
             orc.check_state(o)
         steps.append((op, out, o))
 
     if concrete is not None:
-        for op in concrete:
-            do(tuple(op))
+        try:
+            for op in concrete:
+                do(tuple(op))
+        except _Stop:
+            pass
         return steps, orc
+    try:
+        return _drive_abstract(hist, pick, do, l, seq, orc, steps, val)
+    except _Stop:
+        return steps, orc
+
+
+def _drive_abstract(hist, pick, do, l, seq, orc, steps, val):
     for a in hist:
         if a[0] == "ask":
             do(a)
@@ -241,7 +259,12 @@ def drive(n, kind, hist, rng, concrete=None):
                     idx.append(i)
             if idx:
                 vals = [next(val) for _ in idx]
-                l.tell_many([(i, seq[i]) for i in idx], vals)
+                try:
+                    l.tell_many([(i, seq[i]) for i in idx], vals)
+                except Exception as e:
+                    orc.err("internal_error", f"tell_many({idx}) raised {type(e).__name__}: {e}")
+                    steps.append((("tell", idx[0], vals[0]), [], None))
+                    return steps, orc
                 for j, (i, v) in enumerate(zip(idx, vals)):
                     orc.on_tell(i, v)
                     o = obs_of(l) if j == len(idx) - 1 else None
